@@ -846,11 +846,28 @@ pub fn render_obs(z: &idl::Interface<'_>) -> (Value, String, bool) {
                 _ => None,
             }
         };
+        // the description the service holds parses to itself, too
+        let own = match zlink_core::varlink_service::InterfaceDescription::from(z).parse() {
+            Ok(i) => &i == z,
+            Err(_) => false,
+        };
         match got {
-            Some(desc) => match desc.parse() {
-                Ok(i) => canon(&i) == canon(z) && &i == z,
-                Err(_) => false,
-            },
+            Some(desc) => {
+                let direct = match desc.parse() {
+                    Ok(i) => canon(&i) == canon(z) && &i == z,
+                    Err(_) => false,
+                };
+                // a client that passes the description on (encodes what it received): the next hop decodes and
+                // parses the same description
+                let relayed = match serde_json::to_string(&desc) {
+                    Ok(t) => match serde_json::from_str::<zlink_core::varlink_service::InterfaceDescription<'_>>(&t) {
+                        Ok(d2) => d2.as_raw() == desc.as_raw() && matches!(d2.parse(), Ok(i) if &i == z),
+                        Err(_) => false,
+                    },
+                    Err(_) => false,
+                };
+                own && direct && relayed && desc.as_raw().is_some()
+            }
             None => false,
         }
     }))
